@@ -92,6 +92,7 @@ static js::val handle(const js::val& req)
     if (mode == "eval") return vd::mode_eval(req);
     if (mode == "pp") return vd::mode_pp(req);
     if (mode == "front") return vd::mode_front(req);
+    if (mode == "roundtrip") return vd::mode_roundtrip(req);
     if (mode == "values") return vd::mode_values(req);
     if (mode == "mt") return vd::mode_mt(req);
     if (mode == "api") return vd::mode_api(req);
